@@ -118,7 +118,7 @@ def h_batch(S, B):
     S.cover("batch:n=%d" % n)
     refused = ("unexposed", "_private", "nosuch")
     S.known("C11-results-before-a-refused-member-are-lost",
-            len([i for i in range(1, n) if calls[i][0] in refused]) > 0)
+            len([i for i in range(1, n) if calls[i][0] in refused]) > 0, checks=["results-of-calls-before-the-failure-are-delivered"])
     S.check("same-final-state", o1.value == o2.value)
     S.check("same-number-of-calls-executed", o1.calls == o2.calls)
     S.check("one-request-for-the-whole-batch", s1.requests == 1)
